@@ -115,11 +115,16 @@ pub uninterp spec fn listing(paths: Seq<PathBuf>, e: FileExtensions) -> Set<Path
 /// `<project_dir>/.zinoma`
 pub uninterp spec fn work_dir_of(project_dir: PathBuf) -> PathBuf;
 
-/// `crate::fs::list_files_in_paths` (A-fs)
-#[verifier::external_body]
-pub fn list_files_in_paths(paths: &Vec<PathBuf>, extensions: &FileExtensions, Tracked(w): Tracked<&mut World>) -> (r: HashSet<PathBuf>)
+/// `crate::fs::list_files_in_paths` and the walk behind it (A-fs): real signatures, bodies not verified
+//@fn src/fs.rs list_files_in_paths assumed ret=r
+//@contract
     ensures *final(w) == *old(w), r@ == listing(paths@, *extensions),
-{ unimplemented!() }
+//@end
+//@fn src/fs.rs list_files_in_path assumed ret=r
+//@lsubst Path => PathBuf
+//@contract
+    ensures true,
+//@end
 #[verifier::external_body]
 pub struct IoError { _p: () }
 pub enum ErrorKind { NotFound, PermissionDenied, Other }
